@@ -398,8 +398,8 @@ def run(res, ctx):
         cs = corpus()
         ctx["nproc_sample"] = len(cs)
         check_cases(res, ctx, cs, root, 0, bins)
-        n = 500 if tier == "quick" else 8000
-        nbig = 12 if tier == "quick" else 300
+        n = 1500 if tier == "quick" else 8000
+        nbig = 30 if tier == "quick" else 300
         batch = 500
         done = 0
         off = len(cs)
@@ -424,18 +424,16 @@ def run(res, ctx):
                       {"theorem_or_projection": "correspondence projection C19 (outcome class; emitted rows in order: security, dates, action, shares, price, fees, memo; error list; warning count)",
                        "input": replay_obj(c), "actual_impl": io_, "difference": d, "differing_cases": len(ctx["corr_diffs"])},
                       found_input=False)
-    for k in common.load_known("C19"):
-        res.known(k["what"])
     res.coverage.update({
         "evaluations": st["evaluations"],
         "distinct_nontrivial": st["distinct_nontrivial"],
-        "rule": "hand-written corpus (12 boundary scenarios incl. the repository's 2022 sample rebuilt from records) + seeded random sets of "
+        "rule": "hand-written corpus (%d boundary scenarios incl. the repository's 2022 sample rebuilt from records) + seeded random sets of "
                 "confirmations: 1-4 benefits (RSU/ESPP with or without or with incomplete sell-to-cover/ESO with 1-3 grants) a few days apart, their "
                 "sell-to-cover split over 1-5 sales (in window, late, early, missing, wrong security, off by one), 0-8 other sales/purchases with "
                 "coinciding share counts, identical sales, identical documents under one file name in two directories; both trade-confirmation "
                 "layouts x 2 whitespace styles, random file names/directories and argument order; a batch with 8-13 candidate sales per benefit. "
                 "Non-trivial = some benefit has >= 2 candidate sales in its window (the subset search has a choice) or the run ends in matching errors; "
-                "distinct by SHA-1 of the (path, text) set",
+                "distinct by SHA-1 of the (path, text) set" % len(corpus()),
         "samples": ctx["samples"],
         "input_distribution": {k: v for k, v in sorted(st.items())},
         "traces_validated_against_impl": st["evaluations"] - st["correspondence_diffs"],
